@@ -298,6 +298,37 @@ def build_frame(desc):
     })
     df['ceilo'] = df['ceilo'].astype(pd.StringDtype())
     df['type'] = df['type'].astype(int)
+    return relabel(df, desc.get('index'), [str(r[0]) for r in rows])
+
+
+def relabel(df, mode, ceilos):
+    """ index labels carry no information: plain, per-ceilometer (as produced by concatenating
+    per-ceilometer frames: repeated labels), constant, shuffled, offset, strings, floats """
+    n = len(df)
+    if not mode or mode == 'plain':
+        return df
+    if mode == 'perceilo':
+        seen = {}
+        lab = []
+        for c in ceilos:
+            lab.append(seen.get(c, 0))
+            seen[c] = seen.get(c, 0) + 1
+        df.index = lab
+    elif mode == 'const':
+        df.index = [7] * n
+    elif mode == 'shuffled':
+        import random as _r
+        lab = list(range(n))
+        _r.Random(n).shuffle(lab)
+        df.index = lab
+    elif mode == 'offset':
+        df.index = [1000 + 3 * i for i in range(n)]
+    elif mode == 'str':
+        df.index = [f'row{i % max(1, n // 2)}' for i in range(n)]        # strings, with repeats
+    elif mode == 'float':
+        df.index = [0.5 * i for i in range(n)]
+    else:
+        raise ValueError(mode)
     return df
 
 
